@@ -632,6 +632,37 @@ func (g *G) nearAttrs(a Attrs) (Attrs, bool) {
 	return c, true
 }
 
+// floatTwins: two attribute lists that differ ONLY in a double that is equal under == or unordered
+// (+0.0 / -0.0, two NaNs of different payload or sign), at the top level or inside an array value:
+// different identities that a float comparison which is not the total order on bit patterns merges.
+func (g *G) floatTwins(a Attrs) (Attrs, Attrs) {
+	x, y := uint64(0), negZero
+	if g.r.Chance(1, 3) {
+		x = nanClasses[g.r.Intn(len(nanClasses))]
+		y = x ^ 1
+		if g.r.Bool() {
+			y = x ^ (1 << 63)
+		}
+	}
+	if g.r.Bool() {
+		x, y = y, x
+	}
+	vx, vy := AV{K: KDouble, I: x}, AV{K: KDouble, I: y}
+	if g.allowArrays && g.r.Chance(1, 3) {
+		head := AV{K: KStr, S: g.str()}
+		vx, vy = AV{K: KSlice, Arr: []AV{head, vx}}, AV{K: KSlice, Arr: []AV{head, vy}}
+	}
+	var rest Attrs
+	for _, kv := range a {
+		if kv.K != "load" {
+			rest = append(rest, kv)
+		}
+	}
+	a1 := append(cloneAttrs(rest), KVp{"load", vx})
+	a2 := append(cloneAttrs(rest), KVp{"load", vy})
+	return a1, a2
+}
+
 // mapFirstAttrs: a nested map (or an array holding one) of several entries first, plain attributes after
 // it - the shape on which a comparator that reuses scratch space across nesting levels goes wrong.
 func (g *G) mapFirstAttrs() Attrs {
@@ -684,6 +715,12 @@ func (g *G) traces() Traces {
 				resPool = append(resPool, x)
 			}
 		}
+		if g.r.Chance(1, 4) {
+			// identities that differ only in the sign of a zero / the payload of a NaN
+			x, y := resPool[len(resPool)-1], resPool[len(resPool)-1]
+			x.Attrs, y.Attrs = g.floatTwins(x.Attrs)
+			resPool = append(resPool, x, y)
+		}
 	}
 	type scID struct {
 		Name, Ver, URL string
@@ -708,6 +745,11 @@ func (g *G) traces() Traces {
 				x.Attrs = na
 				scPool = append(scPool, x)
 			}
+		}
+		if g.r.Chance(1, 4) {
+			x, y := scPool[len(scPool)-1], scPool[len(scPool)-1]
+			x.Attrs, y.Attrs = g.floatTwins(x.Attrs)
+			scPool = append(scPool, x, y)
 		}
 	}
 	var t Traces
